@@ -12,6 +12,9 @@ from astropy.time.utils import two_sum, two_product
 
 __all__ = ["Phase", "FractionalPhase"]
 
+# Value of ``copy`` meaning "copy only if needed" (NumPy >= 2 reads False as "never copy").
+COPY_IF_NEEDED = None if np.lib.NumpyVersion(np.__version__) >= "2.0.0b1" else False
+
 
 FRACTION_UFUNCS = {np.cos, np.sin, np.tan, np.spacing}
 
@@ -248,7 +251,7 @@ class Phase(Angle):
                 phase1 = phase1.view(cls)
             return phase1.copy() if copy else phase1
 
-        phase1 = Angle(phase1, cls._unit, copy=False)
+        phase1 = Angle(phase1, cls._unit, copy=COPY_IF_NEEDED)
 
         if phase2 is not None:
             if isinstance(phase2, Phase):
@@ -257,7 +260,7 @@ class Phase(Angle):
                     phase2 = phase2.view(cls)
                 return phase2
 
-            phase2 = Angle(phase2, cls._unit, copy=False)
+            phase2 = Angle(phase2, cls._unit, copy=COPY_IF_NEEDED)
 
         return cls.from_angles(phase1, phase2)
 
@@ -734,7 +737,7 @@ class Phase(Angle):
         ) and basic_phase_out:
             try:
                 other = u.Quantity(
-                    inputs[1 - i_self], u.dimensionless_unscaled, copy=False
+                    inputs[1 - i_self], u.dimensionless_unscaled, copy=COPY_IF_NEEDED
                 ).value
                 if function is np.multiply:
                     return self.from_angles(
@@ -790,8 +793,8 @@ class Phase(Angle):
             # Go via view to avoid having to deal with imaginary.
             v = self.view(np.ndarray)
             return self.from_angles(
-                u.Quantity(v["int"], u.cycle, copy=False),
-                u.Quantity(v["frac"], u.cycle, copy=False),
+                u.Quantity(v["int"], u.cycle, copy=COPY_IF_NEEDED),
+                u.Quantity(v["frac"], u.cycle, copy=COPY_IF_NEEDED),
                 factor=np.sign(v["int"] + v["frac"]),
                 out=phase_out,
             )
@@ -805,7 +808,7 @@ class Phase(Angle):
 
         elif function is np.exp and basic and self.imaginary:
             # Avoid dimensionless_angles, but still get Quantity out.
-            exponent = u.Quantity(self.frac.to_value(u.radian), copy=False)
+            exponent = u.Quantity(self.frac.to_value(u.radian), copy=COPY_IF_NEEDED)
             return function(exponent, **kwargs)
 
         # Fall-back: treat Phase as a simple Quantity.
